@@ -167,10 +167,7 @@ class LookupHooks(QHooks):
             raise AnalysisBroken('nughde_get: probe key is %s' % x.args[1].src())
         iv = args[2]
         i = next(iter(iv)) if iv is not TOP and len(iv) == 1 else None
-        wild = None
-        for p, v in E.store.items():
-            if '::L:flagwild' in p and v is not TOP and len(v) == 1:
-                wild = next(iter(v))
+        wild = None if i is None else (0 if i == self.KEYLEN else 1)     # a key shorter than the full one is a wildcard probe
         self.site('probe-after-lower-casing', x, g1(E, '$lowered', 0) == 1, 'cdb probed before the key was lower-cased', E)
         self.site('no-lookup-after-a-database-error', x, g1(E, '$err', 0) == 0, 'a probe follows a cdb error that did not end the process', E)
         member = g1(E, '$member')
@@ -188,8 +185,6 @@ class LookupHooks(QHooks):
     def prim_byte_chr(self, E, x, args):
         if x.args[0].path() == 'G:wildchars.s':
             n = g1(E, 'G:wildchars.len', 5)
-            src = x.args[2].src()
-            self.site('break-character-compared-is-from-the-lower-cased-key', x, 'lower.s' in src, 'membership test uses %s' % src, E)
             return [Outcome(ret=fs(0), sets={'$member': fs(True)}, log='break character: member'),
                     Outcome(ret=fs(n), sets={'$member': fs(False)}, log='break character: not a member')]
         return [Outcome(ret=TOP)]
@@ -262,8 +257,16 @@ def run(ctx):
     # prot.c
     pg = db.fn('prot.c', 'prot_gid')
     sg, sgid = pg.calls('setgroups'), pg.calls('setgid')
-    ok = bool(sg and sgid) and pg.dominates(sg[0], sgid[0]) and sg[0].args[0].const == 1 and \
-        any(c.strip().k == 'bin' and c.strip().args[1].const == -1 and t is False for c, t in pg.guards(sgid[0]) or [])
+    from qv.lib import _cmp_parts, branch_zero_test
+
+    def call_ok_guard(fn, x, callee):
+        """x is reached only when `callee`'s result is not -1"""
+        for c, t in fn.guards(x) or []:
+            p = _cmp_parts(c)
+            if p is not None and p[0].strip().k == 'call' and p[0].strip().callee == callee and p[1](-1) != t and p[1](0) == t:
+                return True
+        return False
+    ok = bool(sg and sgid) and pg.dominates(sg[0], sgid[0]) and sg[0].args[0].const == 1 and call_ok_guard(pg, sgid[0], 'setgroups')
     r1.check(ok, 'prot_gid:setgroups(1,&gid)-ok-then-setgid', 'prot.c:prot_gid', 'supplementary groups must be replaced by the single gid before setgid, with the result checked')
     rets = [x for x in pg.all_x() if x.k == 'ret']
     r1.check(any(x.args and x.args[0].strip().k == 'call' and x.args[0].strip().callee == 'setgid' for x in rets), 'prot_gid:returns-setgid-result', 'prot.c:prot_gid', '')
@@ -442,8 +445,20 @@ def run(ctx):
                  'the break character is taken from %s, which is not lower-cased, while qmail-lspawn compares it with the lower-cased local part: an entry like +teamA: can never match' % c.args[1].src())
     for c in tests:
         r4.check(lowered_root(nu, c, c.args[2]), 'writer-deduplicates-break-characters-lower-cased', c.where, 'membership test on %s' % c.args[2].src())
-    rtests = [c for c in ng.calls('byte_chr') if c.args[0].src() == 'wildchars.s']
-    r4.check(bool(rtests) and all(lowered_root(ng, c, c.args[2]) for c in rtests), 'reader-compares-lower-cased-bytes', ng.unit + ':nughde_get', '')
+    from qv.lib import deep_calls
+    okr = False
+    for f, c in deep_calls(pl, ng, 'byte_chr'):
+        if c.args[0].src() != 'wildchars.s':
+            continue
+        if f is ng:
+            okr = lowered_root(ng, c, c.args[2])
+        else:
+            # the byte is the helper's parameter: judge the expression nughde_get passes
+            pv = c.args[2].var
+            idx = f.params.index(pv) if pv in f.params else None
+            sites = ng.calls(f.name)
+            okr = idx is not None and bool(sites) and all(lowered_root(ng, sc, sc.args[idx]) for sc in sites)
+    r4.check(okr, 'reader-compares-lower-cased-bytes', ng.unit + ':nughde_get', 'the byte tested for membership in the break list must come from the lower-cased key')
     # the break list is stored under / read from the empty key
     wadd = [c for c in nu.calls('cdbmss_add') if c.args[1].string == '' and c.args[2].const == 0 and 'wildchars' in c.args[3].src()]
     rget = [c for c in ng.calls('cdb_seek') if c.args[1].string == '' and c.args[2].const == 0]
@@ -457,17 +472,27 @@ def run(ctx):
     if not r1s:
         raise AnalysisBroken('userext: return 1 not found')
     for x in r1s:
-        g = [(c.strip(), t) for c, t in ue.guards(x) or []]
-        has_pw = any(c.path() == 'G:pw' and t is True for c, t in g)
-        nonroot = any((c.path() or '').endswith('pw_uid') and t is True for c, t in g)
-        st_ok = any(c.k == 'bin' and c.op == '==' and c.args[1].const == 0 and c.args[0].strip().k == 'call' and c.args[0].strip().callee == 'stat' and t is True for c, t in g)
-        owner = any(c.k == 'bin' and c.op == '==' and {(c.args[0].path() or '').split('.')[-1], (c.args[1].path() or '').split('>')[-1]} == {'st_uid', 'pw_uid'} and t is True for c, t in g)
+        g = ue.guards(x) or []
+        has_pw = any(branch_zero_test(c, t, lambda v: v.path() == 'G:pw') == 'nonzero' for c, t in g)
+        nonroot = any(branch_zero_test(c, t, lambda v: (v.path() or '').endswith('pw_uid')) == 'nonzero' for c, t in g)
+        st_ok = False
+        for c, t in g:
+            p = _cmp_parts(c)
+            if p is not None and p[0].strip().k == 'call' and p[0].strip().callee == 'stat' and p[1](0) == t and p[1](-1) != t:
+                st_ok = True
+        owner = False
+        for c, t in g:
+            cs = c.strip()
+            if cs.k == 'bin' and cs.op in ('==', '!=') and (t is (cs.op == '==')) and \
+                    {(cs.args[0].path() or '').split('.')[-1], (cs.args[1].path() or '').split('>')[-1]} == {'st_uid', 'pw_uid'}:
+                owner = True
         r5.check(has_pw and nonroot and st_ok and owner, 'accept-needs-existing-nonroot-user-owning-its-home', x.where, 'pw=%s nonroot=%s stat-ok=%s owner=%s' % (has_pw, nonroot, st_ok, owner))
     bc = ue.calls('byte_copy')
     okb = False
     if bc:
-        g = [(c.strip(), t) for c, t in ue.guards(bc[0]) or []]
-        okb = any(c.k == 'bin' and c.op == '<' and c.args[1].const == 32 and t is True for c, t in g)
+        from qv.lib import consistent_values
+        cv = consistent_values(ue, bc[0], range(0, 80))
+        okb = any(vals == set(range(0, 32)) for vals in cv.values())
         size = db.unit('qmail-getpw.c').macro_int('GETPW_USERLEN')
         okb = okb and size == 32
     r5.check(okb, 'name-copy-bounded-by-the-buffer', ue.unit + ':userext', 'byte_copy into username[] must be guarded by extension - local < sizeof username')
